@@ -628,16 +628,20 @@ func TamperMain(args []string) {
 							continue
 						}
 					}
-					if td, err := ForgeDuplicateSection(src); err == nil {
+					for _, after := range []bool{false, true} {
+						td, err := ForgeDuplicateSection(src, after)
+						if err != nil {
+							r.Note("jar duplicate-section forgery not applicable: %v", err)
+							continue
+						}
 						os.WriteFile(work, td, 0600)
 						r.Eval(true)
 						if err := verify(work, orig); err == nil {
-							r.Fail(map[string]string{"engine": "tamper", "type": "jar", "region": "duplicate-section"}, map[string]any{"key": key, "sectionsOnly": sectionsOnly},
-								"jar/%s (sections-only=%v): a member's content was replaced and a second MANIFEST.MF section of the same name with the new digest inserted before the original one (.SF and signature block untouched) and the verifier reports success", key, sectionsOnly)
+							where := map[bool]string{false: "before the original one", true: "after it, at the end of the manifest"}[after]
+							r.Fail(map[string]string{"engine": "tamper", "type": "jar", "region": "duplicate-section"}, map[string]any{"key": key, "sectionsOnly": sectionsOnly, "after": after},
+								"jar/%s (sections-only=%v): a member's content was replaced and a second MANIFEST.MF section of the same name with the new digest inserted %s (.SF and signature block untouched) and the verifier reports success", key, sectionsOnly, where)
 						}
 						r.Count("jar_duplicate_section", 1)
-					} else {
-						r.Note("jar duplicate-section forgery not applicable: %v", err)
 					}
 					if tmpd != "" {
 						os.RemoveAll(tmpd)
